@@ -14,6 +14,15 @@ def cls(name):
     def deco(fn): CLASSES[name] = fn; return fn
     return deco
 
+@cls('callsite')
+def _callsite(k, f):
+    if (f['ty'] + '.' + f['op']) not in k['sites']: return False
+    if k.get('widths'):
+        try: n = int(f['args'][0], 16)
+        except Exception: return False
+        return n in k['widths']
+    return True
+
 def open_findings(pid):
     return [k for k in _load() if k.get('status', 'open') == 'open' and pid in k['properties']]
 
